@@ -53,6 +53,7 @@ type rcCall struct {
 
 type rcModel struct {
 	closed   bool
+	closedAt int64 // step at which the first Close call was released
 	seen     map[string]bool
 	buf      []cid.Cid // 0 or 1 entries
 	senders  []*rcCall // blocked Direct calls, FIFO
@@ -194,9 +195,9 @@ func runC16(r *simkit.Run, c Cfg) {
 				}
 				call.end = r.Step()
 				call.returned = true
-				if call.op == rcOpNext && m.closed {
-					// select between the buffered message and the
-					// closed signal is a coin the runtime flips
+				if call.op == rcOpNext && m.closed && call.start < m.closedAt {
+					// a Next that was waiting when Close came: the
+					// announcement that arrived with it, or the closed error
 					t.Logf("Next -> message-or-closed")
 				} else {
 					t.Logf("%s -> %v", rcOpNames[call.op], call.err)
@@ -231,6 +232,7 @@ func runC16(r *simkit.Run, c Cfg) {
 		case rcOpClose:
 			if !m.closed {
 				m.closed = true
+				m.closedAt = r.Step()
 				for _, s := range m.senders {
 					s.mayBlock = false
 				}
@@ -418,7 +420,10 @@ func runC16(r *simkit.Run, c Cfg) {
 				}
 			case rcOpNext:
 				if wasClosed && call.err == nil {
-					r.Probe("next-after-close-got-buffered")
+					// "waiters ... with the closed error": a consumer that asks
+					// a closed receiver for the next announcement is told that
+					// it is closed, whatever is still queued
+					r.Violate("c16.result", "Next on a receiver that had been closed returned an announcement (%s) without error, want the closed error", call.gotCid)
 				}
 				if wasClosed && call.err != nil && !errors.Is(call.err, announce.ErrClosed) {
 					r.Violate("c16.result", "Next after Close returned %v", call.err)
